@@ -65,22 +65,6 @@ func newPeer(config PeerConfig, id uint32, plugin Plugin, options peerOptions) *
 	return p
 }
 
-// getFSMTransitionCh returns the stateTransition channel for the provided FSM.
-func (p *peer) getFSMTransitionCh(f *fsm) chan stateTransition {
-	if f == p.fsms[out] {
-		return p.transitionCh[out]
-	}
-	return p.transitionCh[in]
-}
-
-// getFSMErrorCh returns the error channel for the provided FSM.
-func (p *peer) getFSMErrorCh(f *fsm) chan error {
-	if f == p.fsms[out] {
-		return p.errorCh[out]
-	}
-	return p.errorCh[in]
-}
-
 func other(i int) int {
 	if i == out {
 		return in
@@ -118,7 +102,7 @@ func (p *peer) enableFSM(i int, conn net.Conn) {
 		return
 	}
 	if p.fsms[i] == nil {
-		p.fsms[i] = newFSM(p, conn)
+		p.fsms[i] = newFSM(p, conn, p.transitionCh[i], p.errorCh[i])
 		p.fsmState[i] = disabledState
 		p.fsms[i].start()
 	}
